@@ -164,8 +164,8 @@ def run(ctx):
     ctx.assumptions += [
         "a namespace all of whose shards are being deleted is not required to cover the hash space (it publishes no shard)",
         "an empty assignment list is accepted only for a namespace that was dropped from a configuration",
-        "GenerateShards is claimed for 1..65536 shards per namespace (checked: 1..64 and 2^k-1, 2^k, 2^k+1 up to 4097); "
-        "from 65537 on its rounded-up bucket size overflows the 32-bit space (TLC shows the analogue in the small space)",
+        "GenerateShards is observed for 1..64, 2^k-1, 2^k, 2^k+1 up to 4097 and 65535..65538, 131071 shards; the model "
+        "GenShards covers every count the (small) space can hold",
         "client and servers agree once the client holds the currently published assignments; a stale client is still "
         "required to route every key to exactly one shard",
         "configuration notifications that change nothing are not sent to the coordinator (they end its config watcher, "
